@@ -15,6 +15,10 @@ let known_witnesses = [
   "f = (n : int) => g n; x = f 1; g = (n : int) => n; x";             (* D7 through a function *)
   "((f : int -> _) => f 1 + 1) ((x : int) => true)";                 (* D9 *)
   "_";                                                                (* D14 *)
+  (* D19: the hole of z's annotation sits under the annotation's own binder; when z's type is looked up one binder
+     further in it is raised without the hole noticing, and the shared cell is solved by an index that means `f`
+     there and `g` where the annotation stands *)
+  "p = (g : type) => (f : type) => (z : (a : type) -> _) => ((w : (a : type) -> f) => w) z; r = p int bool ((a : type) => 5); if r int then 1 else 2";
   (* misordered NON-value definitions at several nesting positions: all must be rejected *)
   "x = y + 1; y = 2 + 1; x";
   "f = (u : int) => (x = y + 1; y = u + 1; x); f 0";
@@ -83,8 +87,8 @@ let check (case : Sexp.t) (res : Sexp.t) : [ `Ok | `Mismatch of string | `Proper
                   (match stuck_var v [] with
                    | Some (Some d) when is_value d -> " sig=D7-definition-not-yet-available"
                    | _ -> "")
-                | UnfilledHole -> if a.open_holes = 0 then " sig=D14-unfilled-hole-evaluated" else " sig=D9-hole-copied-by-open"
-                | NotAFunction | NotAnInteger | NotABoolean -> if a.open_holes > 0 then " sig=D9-hole-copied-by-open" else ""
+                | UnfilledHole -> if a.open_holes = 0 && a.local_holes = 0 then " sig=D14-unfilled-hole-evaluated" else hole_sig ~opened:a.open_holes ~local:a.local_holes
+                | NotAFunction | NotAnInteger | NotABoolean -> hole_sig ~opened:a.open_holes ~local:a.local_holes
                 | DivByZero -> "") in
              (`Property ("accepted program is stuck: " ^ reason_name k ^ sg), true)
            | None -> (`Property "evaluate reports a stuck term that the model can step or that is a value", true))))
